@@ -114,7 +114,9 @@ def wiring(src):
     else:
         b = re.search(r'\.bind\s*\(([^)]*)\)\s*(\?)?', mb)
         w.append(('bind', 'single-call:' + (re.sub(r'\s+', '', b.group(1)) if b else '?')))
-    return w
+    # the wiring is a finite map (which source feeds which field / parameter): the ORDER in which a struct literal lists its
+    # fields is not part of it
+    return sorted(w)
 
 def split_top(s):
     out, depth, cur = [], 0, ''
@@ -135,13 +137,13 @@ STATED_ARGS = [
  {'long': 'snapshot-versions', 'short': None, 'env': 'SNAPSHOT_VERSIONS', 'delimiter': None, 'append': False, 'required': False, 'default': 'ServerConfig::default().snapshot_versions', 'parser': 'u32'},
  {'long': 'snapshot-days', 'short': None, 'env': 'SNAPSHOT_DAYS', 'delimiter': None, 'append': False, 'required': False, 'default': 'ServerConfig::default().snapshot_days', 'parser': 'i64'},
 ]
-STATED_WIRING = [
+STATED_WIRING = sorted([
  ('ServerArgs.data_dir', 'arg:data-dir'), ('ServerArgs.snapshot_versions', 'arg:snapshot-versions'), ('ServerArgs.snapshot_days', 'arg:snapshot-days'),
  ('ServerArgs.client_id_allowlist', 'arg:allow-client-id'), ('ServerArgs.listen_addresses', 'arg:listen'),
  ('ServerConfig.snapshot_days', 'server_args.snapshot_days'), ('ServerConfig.snapshot_versions', 'server_args.snapshot_versions'),
  ('WebServer::new.0', 'config'), ('WebServer::new.1', 'server_args.client_id_allowlist'), ('WebServer::new.2', 'SqliteStorage::new(server_args.data_dir)?'),
  ('bind', 'each:server_args.listen_addresses:?'),
-]
+])
 
 def extract():
     source = {}
